@@ -19,6 +19,8 @@ def streams(tier, rng):
 def post(tier, rng, api):
     return pc.post(tier, rng, api, publication=False)
 
+shrink = pc.shrink
+
 MANIFEST = {
     "text": "Coq theorems over ALL reachable states of the transition system of pool.rs, for every script of broadcasts (growing and shrinking thread counts), every interleaving, any panicking subset, spurious wake-ups and stale tokens included: caller parked with counter 0 and no token implies a worker of this broadcast is at its unpark (no lost wake-up); every non-final state has an enabled non-spurious step (deadlock freedom, also for the executable label enumeration); a lexicographic measure decreases on every non-spurious step, so every infinite execution contains infinitely many spurious wake-ups and the final state (pool dropped, all workers exited) is reachable from every state; after drop nothing is called and every worker exits. Tied to the code by replaying every explored schedule of the verbatim pool.rs (shuttle random/PCT/bounded DFS, deadlock detection with attached worker threads, join of all workers after drop) through the extracted step function.",
     "note": "Trusted: Coq kernel, extraction, OCaml driver, harness hx-sched (sched_std shim over shuttle 0.9.3), extract_consts.py. std's park/unpark/sync_channel(0)/Mutex semantics are assumed (token, spurious wake-ups allowed, rendezvous, sender drop closes the channel). Fairness is not assumed by the theorems: termination is stated as 'no infinite execution with finitely many spurious wake-ups'.",
